@@ -261,6 +261,24 @@ pub fn build_variant_groups<IntT: for<'a> UInt<'a>>(
         }
     }
 
+    #[cfg(feature = "verif-hooks")]
+    for (kind, groups) in [("groups", &final_groups), ("indels", &final_indels)] {
+        let mut logged: Vec<(String, String, Vec<String>)> = groups
+            .iter()
+            .map(|((entry, exit), variants)| {
+                let mut seqs: Vec<String> = variants.iter().map(|v| v.sequence.decode()).collect();
+                seqs.sort();
+                (
+                    IntT::skalo_decode_kmer(*entry, data_info.k_graph),
+                    IntT::skalo_decode_kmer(*exit, data_info.k_graph),
+                    seqs,
+                )
+            })
+            .collect();
+        logged.sort();
+        crate::verif_trace::lo_groups(kind, &logged);
+    }
+
     // infer variants
     analyse_variant_groups(
         final_groups,
